@@ -112,11 +112,14 @@ CLAIMED = {
             "Coq proof (abstract policy) + correspondence + postcondition checker"),
     "C13": ("Coq theorems: with free start/end psi the last-row value at end e is a lower bound of the penalised DTW cost "
             "of the query against series[b..e] for every start b (shift lemma) and is attained by a path starting at the "
-            "top border (cell-wise optimality); the implementation's matching function is compared with the exhaustive "
-            "minimum over start points computed by the extracted DTW model; best match / k-best iterator invariants and "
-            "interleaved iteration checked on both engines",
-            "partial: the k-best iterator is checked on the implementation only",
-            "Coq proof (shift lemma + path optimality) + exhaustive correspondence"),
+            "top border (cell-wise optimality); C13_kbest_iterator / _no_overlap_one_shared_sample / _kbest_terminates: "
+            "the k-best iterator, modelled as a state machine over the matching function, yields matches in "
+            "non-decreasing value order with distinct ends, lengths within the limits and disjoint masked ranges, for "
+            "every input; the implementation's matching function is compared with the exhaustive minimum over start "
+            "points (extracted DTW model) and its yield sequences with the extracted iterator machine",
+            "the iterator machine is hand-written after _best_matches (tied by exact correspondence of the yield "
+            "sequences); path extraction of get_match is checked by an independent checker",
+            "Coq proof (shift lemma + iterator state machine) + model/implementation correspondence"),
     "C16": ("Coq theorems about the final assignment step for ANY means (so for any random choices): nearest mean (first "
             "minimum), clusters partition the assigned indices with keys < k, unassigned only if all distances "
             "infinite, iteration counter <= max_it + 1; postconditions checked on fit() over seeds x init modes x "
